@@ -137,9 +137,10 @@ def h1ErrStr : H1Err → String
   | .badContentLength => "badContentLength" | .unsupportedTE => "unsupportedTE"
   | .body e => "body:" ++ ioErrStr (some e)
 
-/-- the fields the e2e lanes compare: `X-…` and `Content-Type` -/
+/-- the fields the e2e lanes compare: `X-…`, `Content-Type`, and (round 5) `Cache-Control` / `Pragma` -/
 def keepField (kv : Bytes × Bytes) : Bool :=
-  kv.1.take 2 == [88, 45] || kv.1 == [67, 111, 110, 116, 101, 110, 116, 45, 84, 121, 112, 101]
+  kv.1.take 2 == [88, 45] || kv.1 == [67, 111, 110, 116, 101, 110, 116, 45, 84, 121, 112, 101] ||
+    kv.1 == Req.H1.kCacheControl || kv.1 == Req.H1.kPragma
 
 def viewStr (v : View) : String :=
   "status=" ++ toString v.status ++ " hdr=" ++ kvStr (v.fields.filter keepField) ++
